@@ -601,6 +601,153 @@ def case_reftable_zero(acc):
         rmtree(work)
 
 
+# --------------------------------------------------------------------------- peeled values across re-packing
+# "packing refs changes nothing observable - and C git lists the same refs": the peeled value of a ref (Repo.get_peeled,
+# refs.get_peeled, the ^{} lines of git show-ref -d) is observable, and packed-refs caches it.  Histories over a real
+# repository with annotated tags (incl. a tag of a tag): set / delete / pack(all) / pack(tags only) / re-open.
+_PEEL = {}
+PT = b"refs/tags/t"
+PM = b"refs/heads/m"
+
+
+def peel_universe():
+    if _PEEL:
+        return _PEEL
+    from dulwich.objects import Blob, Commit, Tag, Tree
+
+    b = Blob.from_string(b"c16\n")
+    t = Tree()
+    t.add(b"f", 0o100644, b.id)
+
+    def commit(parents, msg, when):
+        c = Commit()
+        c.tree = t.id
+        c.parents = parents
+        c.author = c.committer = b"A <a@example.com>"
+        c.author_time = c.commit_time = when
+        c.author_timezone = c.commit_timezone = 0
+        c.message = msg
+        return c
+
+    def tag(name, obj, cls, when):
+        g = Tag()
+        g.name = name
+        g.object = (cls, obj.id)
+        g.tagger = b"A <a@example.com>"
+        g.tag_time = when
+        g.tag_timezone = 0
+        g.message = name + b"\n"
+        return g
+
+    c1 = commit([], b"c1\n", 1000)
+    c2 = commit([c1.id], b"c2\n", 2000)
+    t1 = tag(b"t1", c1, Commit, 1500)
+    t2 = tag(b"t2", c2, Commit, 2500)
+    tt = tag(b"tt", t1, Tag, 2600)
+    _PEEL.update(objs=[b, t, c1, c2, t1, t2, tt], ids={"c1": c1.id, "c2": c2.id, "T1": t1.id, "T2": t2.id, "TT": tt.id},
+                 peel={c1.id: c1.id, c2.id: c2.id, t1.id: c1.id, t2.id: c2.id, tt.id: c1.id})
+    _PEEL["name"] = {v: k for k, v in _PEEL["ids"].items()}
+    return _PEEL
+
+
+PEEL_OPS = ([("set", "t", k) for k in ("c1", "c2", "T1", "T2", "TT")] + [("set", "m", "c1"), ("set", "m", "c2")]
+            + [("del", "t"), ("del", "m"), ("pack", True), ("pack", False), ("reopen",)])
+
+
+def case_peeled(acc, ops):
+    """Run `ops` on one live Repo; after the LAST op observe refs and peeled values through the live Repo, a fresh Repo
+    and git show-ref -d (every prefix is a case of its own)."""
+    from dulwich.repo import Repo
+
+    u = peel_universe()
+    ids, peel, nmv = u["ids"], u["peel"], u["name"]
+    root = fresh_dir("c16p")
+    try:
+        live = Repo.init_bare(root)
+        for o in u["objs"]:
+            live.object_store.add_object(o)
+        model = {}
+        for op in ops:
+            op = tuple(op)
+            ref = {"t": PT, "m": PM}.get(op[1]) if len(op) > 1 and op[0] in ("set", "del") else None
+            if op[0] == "set":
+                live.refs[ref] = ids[op[2]]
+                model[ref] = ids[op[2]]
+            elif op[0] == "del":
+                if ref in model:
+                    del live.refs[ref]
+                    del model[ref]
+            elif op[0] == "pack":
+                live.refs.pack_refs(all=op[1])
+            elif op[0] == "reopen":
+                live.close()
+                live = Repo(root)
+            acc.count("transitions")
+        what = "after [%s]" % " ; ".join("%s(%s)" % (o[0], ",".join(str(x) for x in o[1:])) for o in ops)
+        rpl = rp(case_peeled, [list(o) for o in ops])
+        fresh = Repo(root)
+        try:
+            for who, r in (("live", live), ("fresh", fresh)):
+                got = {k: v for k, v in r.refs.as_dict().items() if k != HEAD}
+                if got != model:
+                    acc.violation("files:peeled-family:refs-differ-from-model(%s)" % who, "%s: as_dict=%r, model=%r" % (
+                        what, {k: nmv.get(v, v) for k, v in got.items()}, {k: nmv[v] for k, v in model.items()}), rpl)
+                    return
+                for ref, val in sorted(model.items()):
+                    try:
+                        p1 = r.get_peeled(ref)
+                    except Exception as e:
+                        p1 = "raises %s" % type(e).__name__
+                    if p1 != peel[val]:
+                        acc.violation("files:Repo.get_peeled:wrong-peeled-value(%s)" % who, "%s: %s -> %s, get_peeled = %s, expected %s" % (
+                            what, ref.decode(), nmv[val], nmv.get(p1, p1), nmv[peel[val]]), rpl)
+                        return
+                    p2 = r.refs.get_peeled(ref)
+                    if p2 is not None and p2 != peel[val]:
+                        acc.violation("files:refs.get_peeled:wrong-cached-peeled-value(%s)" % who, "%s: %s -> %s, refs.get_peeled = %s, expected %s or None" % (
+                            what, ref.decode(), nmv[val], nmv.get(p2, p2), nmv[peel[val]]), rpl)
+                        return
+            out = git(["show-ref", "-d"], cwd=root, check=False, env={"GIT_DIR": root}).stdout
+            seen = {}
+            for line in out.splitlines():
+                sha, name = line.split(b" ", 1)
+                seen[name] = sha
+            want = dict(model)
+            for ref, val in model.items():
+                if peel[val] != val:
+                    want[ref + b"^{}"] = peel[val]
+            if seen != want:
+                acc.violation("files:peeled-family:git-show-ref-d-differs", "%s: git show-ref -d lists %r, expected %r" % (
+                    what, {k.decode(): nmv.get(v, v) for k, v in seen.items()}, {k.decode(): nmv[v] for k, v in want.items()}), rpl)
+                return
+            acc.outcome("peeled-family:%s" % ("packed" if os.path.exists(os.path.join(root, "packed-refs")) else "loose-only"))
+            acc.count("peeled_histories")
+        finally:
+            fresh.close()
+            live.close()
+    finally:
+        rmtree(root)
+
+
+def work_peeled(task):
+    acc = Acc()
+    for ops in task:
+        case_peeled(acc, ops)
+    return acc
+
+
+def peeled_sequences(depth):
+    out = []
+    for n in range(1, depth + 1):
+        for seq in itertools.product(PEEL_OPS, repeat=n):
+            if seq[0][0] in ("del", "pack", "reopen"):
+                continue  # nothing to delete / pack / re-open yet
+            if any(a == b for a, b in zip(seq, seq[1:]) if a[0] in ("reopen", "set", "del")):
+                continue  # immediate repetition of an idempotent step
+            out.append([list(o) for o in seq])
+    return out
+
+
 # --------------------------------------------------------------------------- level-parallel BFS
 
 
@@ -746,6 +893,9 @@ def run(ctx):
         ctx.acc.merge(acc)
     if not q:
         stats.append(bfs(ctx, "files", U5, max_depth=3, gitcheck=True))
+    pseqs = peeled_sequences(4 if q else 5)
+    for acc in pmap(work_peeled, split(ctx.order(pseqs), ctx.jobs * 4), jobs=ctx.jobs):
+        ctx.acc.merge(acc)
     # names
     names = [b"".join(t) for n in range(1, 5) for t in itertools.product(NAME_ALPHA, repeat=n)]
     toks = [b"".join(t) for n in range(1, 5) for t in itertools.product(TOKENS, repeat=n)]
@@ -771,9 +921,12 @@ def run(ctx):
         searches=stats,
         rule="E3: BFS over canonical storage states of each backend (files: directory snapshot incl. loose/packed layout; dict: the dict; reftable: "
              "model state x number of tables); menu of ~56 operations per state over the name universe; every transition executed on a fresh, a warm and a "
-             "bystander container and compared with the map model. Ref names: all byte strings <=4 over 17 characters + token strings <=4 over 10 tokens.",
+             "bystander container and compared with the map model. Peeled values: every history of <=%d steps over 12 operations (set a tag ref to a commit / tag / tag of a tag, "
+             "set a branch, delete, pack_refs(all) / pack_refs(tags), re-open) on a real repository; refs, Repo.get_peeled, refs.get_peeled through the live and a fresh Repo and "
+             "git show-ref -d against the model. Ref names: all byte strings <=4 over 17 characters + token strings <=4 over 10 tokens." % (4 if q else 5),
         exhaustive=all(not s["capped"] for s in stats),
         refnames=n.get("refname_cases", 0),
+        peeled_histories=n.get("peeled_histories", 0),
         refnames_checked_against_git=n.get("refname_git_checked", 0),
     )
     ctx.assumptions += [
